@@ -209,12 +209,24 @@ fn edit_case(rng: &mut Rng, rec: &mut Recorder, a2l: &A2lFile, o1: &str, input: 
         0 if !module.measurement.is_empty() => {
             let i = rng.below(module.measurement.len());
             let name = module.measurement[i].get_name().to_string();
+            if module.measurement.iter().filter(|x| x.get_name() == name).count() > 1 {
+                // duplicate names (possible in generated documents): the object cannot be located
+                // in the text by name - not judged
+                rec.bump("edit.skipped_duplicate_name");
+                return;
+            }
             module.measurement[i].long_identifier = format!("edited {}", rng.below(1000));
             ("field_edit", find_block(&t1, "MEASUREMENT", &name), Some(("MEASUREMENT".into(), name)))
         }
         1 if !module.characteristic.is_empty() => {
             let i = rng.below(module.characteristic.len());
             let name = module.characteristic[i].get_name().to_string();
+            if module.characteristic.iter().filter(|x| x.get_name() == name).count() > 1 {
+                // duplicate names (possible in generated documents): the object cannot be located
+                // in the text by name - not judged
+                rec.bump("edit.skipped_duplicate_name");
+                return;
+            }
             module.characteristic[i].address = rng.next_u64() as u32;
             module.characteristic[i].upper_limit = 4242.5;
             ("field_edit", find_block(&t1, "CHARACTERISTIC", &name), Some(("CHARACTERISTIC".into(), name)))
@@ -222,6 +234,12 @@ fn edit_case(rng: &mut Rng, rec: &mut Recorder, a2l: &A2lFile, o1: &str, input: 
         2 if !module.measurement.is_empty() => {
             let i = rng.below(module.measurement.len());
             let name = module.measurement[i].get_name().to_string();
+            if module.measurement.iter().filter(|x| x.get_name() == name).count() > 1 {
+                // duplicate names (possible in generated documents): the object cannot be located
+                // in the text by name - not judged
+                rec.bump("edit.skipped_duplicate_name");
+                return;
+            }
             match rng.below(3) {
                 0 => {
                     module.measurement.swap_remove_idx(i);
@@ -238,6 +256,12 @@ fn edit_case(rng: &mut Rng, rec: &mut Recorder, a2l: &A2lFile, o1: &str, input: 
         3 if !module.compu_method.is_empty() => {
             let i = rng.below(module.compu_method.len());
             let name = module.compu_method[i].get_name().to_string();
+            if module.compu_method.iter().filter(|x| x.get_name() == name).count() > 1 {
+                // duplicate names (possible in generated documents): the object cannot be located
+                // in the text by name - not judged
+                rec.bump("edit.skipped_duplicate_name");
+                return;
+            }
             module.compu_method.swap_remove_idx(i);
             ("remove", find_block(&t1, "COMPU_METHOD", &name), None)
         }
